@@ -246,6 +246,21 @@ Proof.
 Qed.
 
 
+(* a property of translations that only depends on the class holds everywhere once it holds on Rveclist *)
+Lemma forall_reps (P : V -> Prop) :
+  (forall R R', tidx R = tidx R' -> P R -> P R') -> (forall k, (k < NT)%nat -> P (nth k Rvec v0)) -> forall R, P R.
+Proof.
+  intros Inv H R. apply (Inv (rep R) R (tidx_rep R)). unfold rep. apply H. apply T3.
+Qed.
+
+Lemma inj_from_reps (cl : list csite) :
+  (forall k, (k < NT)%nat -> NoDup (map (gidx (nth k Rvec v0)) (filter smob cl))) ->
+  forall R, NoDup (map (gidx R) (filter smob cl)).
+Proof.
+  apply (forall_reps (fun R => NoDup (map (gidx R) (filter smob cl)))).
+  intros R R' E H. rewrite (map_ext (gidx R') (gidx R)); [exact H|]. intro s. apply gidx_class. symmetry. exact E.
+Qed.
+
 (* ------------------------------------------------------------------------------- one instance -- *)
 Definition others (cl : list csite) (cs : csite) : list csite := filter (fun s => negb (cs_eqb s cs)) cl.
 
@@ -464,6 +479,78 @@ Qed.
 Lemma gidx_origin Rs c : gidx Rs (mkCS true c v0) = (tidx Rs * Nmob + c)%nat.
 Proof. unfold JumpEval.gidx. cbn [smob sci sR]. rewrite vadd_0_r. reflexivity. Qed.
 
+Section Geo.
+Variable J : jspec K.
+Variable Ri : V.
+Notation Rj := (vadd Ri (jdR J)).
+Notation i := (tidx Ri * Nmob + jci J)%nat.
+Notation j := (tidx Rj * Nmob + jcj J)%nat.
+Hypothesis Nij : i <> j.
+Hypothesis Wi : (jci J < Nmob)%nat.
+Hypothesis Wj : (jcj J < Nmob)%nat.
+Variable cl : list csite.
+Hypothesis Wf : forall s, In s cl -> smob s = true -> (sci s < Nmob)%nat.
+Hypothesis Inj : forall R, NoDup (map (gidx R) (filter smob cl)).
+
+Lemma key_i R a : In a cl -> smob a = true -> gidx R a = i -> tidx (vadd R (sR a)) = tidx Ri /\ sci a = jci J.
+Proof.
+  intros Ha Ma E. unfold JumpEval.gidx in E. rewrite Ma in E.
+  apply (idx_split _ _ _ _ Nmob) in E; [exact E | apply Wf; assumption | exact Wi].
+Qed.
+
+Lemma key_j R b : In b cl -> smob b = true -> gidx R b = j -> tidx (vadd R (sR b)) = tidx Rj /\ sci b = jcj J.
+Proof.
+  intros Hb Mb E. unfold JumpEval.gidx in E. rewrite Mb in E.
+  apply (idx_split _ _ _ _ Nmob) in E; [exact E | apply Wf; assumption | exact Wj].
+Qed.
+
+Definition exI (cs : csite) : bool := hasm (cs_fin J) (rest cl cs).
+Definition exJ (cs : csite) : bool := hasm (cs_ini J) (rest cl cs).
+
+(* a left-out cluster (it contains the other end point at exactly the jump vector) holds both sites *)
+Lemma exX1i R a : In a cl -> smob a = true -> gidx R a = i -> exI a = true ->
+  exists b, In b cl /\ smob b = true /\ gidx R b = j.
+Proof.
+  intros Ha Ma Ka E. apply (hasm_rest (cs_fin J) cl a eq_refl) in E.
+  destruct E as [s [Hs [N [Ms [C E]]]]]. exists s. split; [exact Hs|]. split; [exact Ms|].
+  destruct (key_i R a Ha Ma Ka) as [Ta _]. cbn [cs_fin sci sR] in C, E.
+  unfold JumpEval.gidx. rewrite Ms, C, (vec_step _ _ R _ E), (T1 _ _ (jdR J) Ta). reflexivity.
+Qed.
+
+Lemma exX1j R b : In b cl -> smob b = true -> gidx R b = j -> exJ b = true ->
+  exists a, In a cl /\ smob a = true /\ gidx R a = i.
+Proof.
+  intros Hb Mb Kb E. apply (hasm_rest (cs_ini J) cl b eq_refl) in E.
+  destruct E as [s [Hs [N [Ms [C E]]]]]. exists s. split; [exact Hs|]. split; [exact Ms|].
+  destruct (key_j R b Hb Mb Kb) as [Tb _]. cbn [cs_ini sci sR] in C, E.
+  unfold JumpEval.gidx. rewrite Ms, C, (vec_step _ _ R _ E), (T1 _ _ (vneg (jdR J)) Tb), vadd_cancel. reflexivity.
+Qed.
+
+(* and it is left out on both sides *)
+Lemma exX2 R a b : In a cl -> In b cl -> smob a = true -> smob b = true -> gidx R a = i -> gidx R b = j ->
+  exI a = exJ b.
+Proof.
+  intros Ha Hb Ma Mb Ka Kb. apply eq_true_iff_eq.
+  destruct (key_i R a Ha Ma Ka) as [Ta Ca]. destruct (key_j R b Hb Mb Kb) as [Tb Cb].
+  assert (Nab : a <> b) by (intro E; apply Nij; rewrite <- Ka, <- Kb, E; reflexivity).
+  unfold exI, exJ.
+  rewrite (hasm_rest (cs_fin J) cl a eq_refl), (hasm_rest (cs_ini J) cl b eq_refl). cbn [cs_fin cs_ini sci sR]. split.
+  - intros [s [Hs [N [Ms [C E]]]]].
+    assert (Es : s = b).
+    { apply (key_inj cl R (Inj R)); try assumption. rewrite Kb. unfold JumpEval.gidx.
+      rewrite Ms, C, (vec_step _ _ R _ E), (T1 _ _ (jdR J) Ta). reflexivity. }
+    rewrite Es in E, N. exists a. split; [exact Ha|]. split; [exact Nab|]. split; [exact Ma|]. split; [exact Ca|].
+    apply vec_flip. exact E.
+  - intros [s [Hs [N [Ms [C E]]]]].
+    assert (Es : s = a).
+    { apply (key_inj cl R (Inj R)); try assumption. rewrite Ka. unfold JumpEval.gidx.
+      rewrite Ms, C, (vec_step _ _ R _ E), (T1 _ _ (vneg (jdR J)) Tb), vadd_cancel. reflexivity. }
+    rewrite Es in E, N. exists b. split; [exact Hb|]. split; [intro X; apply Nab; symmetry; exact X|]. split; [exact Mb|]. split; [exact Cb|].
+    apply vec_flip'. exact E.
+Qed.
+
+End Geo.
+
 Section Cluster.
 Variable mocc : nat -> bool.
 Variable J : jspec K.
@@ -482,18 +569,6 @@ Variable hv : K.
 Hypothesis Wf : forall s, In s cl -> smob s = true -> (sci s < Nmob)%nat.
 Hypothesis Inj : forall R, NoDup (map (gidx R) (filter smob cl)).
 
-Lemma key_i R a : In a cl -> smob a = true -> gidx R a = i -> tidx (vadd R (sR a)) = tidx Ri /\ sci a = jci J.
-Proof.
-  intros Ha Ma E. unfold JumpEval.gidx in E. rewrite Ma in E.
-  apply (idx_split _ _ _ _ Nmob) in E; [exact E | apply Wf; assumption | exact Wi].
-Qed.
-
-Lemma key_j R b : In b cl -> smob b = true -> gidx R b = j -> tidx (vadd R (sR b)) = tidx Rj /\ sci b = jcj J.
-Proof.
-  intros Hb Mb E. unfold JumpEval.gidx in E. rewrite Mb in E.
-  apply (idx_split _ _ _ _ Nmob) in E; [exact E | apply Wf; assumption | exact Wj].
-Qed.
-
 Lemma cluster_balance :
   (side K tidx Nmob Nspec socc mocc (jci J) (cs_fin J) Ri (ropp K) (cl, hv)
    + side K tidx Nmob Nspec socc mocc (jcj J) (cs_ini J) Rj (fun x => x) (cl, hv))
@@ -501,38 +576,14 @@ Lemma cluster_balance :
      + side K tidx Nmob Nspec socc mocc' (jci J) (cs_fin J) Ri (fun x => x) (cl, hv))
   = Ecl K tidx Rvec Nmob Nspec socc mocc' (cl, hv) - Ecl K tidx Rvec Nmob Nspec socc mocc (cl, hv).
 Proof.
+  assert (Nij : i <> j) by (intro E; rewrite E in Hi; rewrite Hi in Hj; discriminate).
   rewrite !side_as_instances by assumption. unfold Ecl. cbn [fst snd].
   rewrite <- !sumf_add, <- !sumf_sub. apply sumf_ext. intros R _.
   apply (instance_balance mocc i j Hi Hj cl R hv).
   - apply Inj.
-  - (* X1i *)
-    intros a Ha Ma Ka E. apply (hasm_rest (cs_fin J) cl a eq_refl) in E.
-    destruct E as [s [Hs [N [Ms [C E]]]]]. exists s. split; [exact Hs|]. split; [exact Ms|].
-    destruct (key_i R a Ha Ma Ka) as [Ta _]. cbn [cs_fin sci sR] in C, E.
-    unfold JumpEval.gidx. rewrite Ms, C, (vec_step _ _ R _ E), (T1 _ _ (jdR J) Ta). reflexivity.
-  - (* X1j *)
-    intros b Hb Mb Kb E. apply (hasm_rest (cs_ini J) cl b eq_refl) in E.
-    destruct E as [s [Hs [N [Ms [C E]]]]]. exists s. split; [exact Hs|]. split; [exact Ms|].
-    destruct (key_j R b Hb Mb Kb) as [Tb _]. cbn [cs_ini sci sR] in C, E.
-    unfold JumpEval.gidx. rewrite Ms, C, (vec_step _ _ R _ E), (T1 _ _ (vneg (jdR J)) Tb), vadd_cancel. reflexivity.
-  - (* X2 *)
-    intros a b Ha Hb Ma Mb Ka Kb. apply eq_true_iff_eq.
-    destruct (key_i R a Ha Ma Ka) as [Ta Ca]. destruct (key_j R b Hb Mb Kb) as [Tb Cb].
-    assert (Nab : a <> b).
-    { intro E. rewrite E in Ka. rewrite Ka in Kb. rewrite Kb in Hi. rewrite Hi in Hj. discriminate. }
-    rewrite (hasm_rest (cs_fin J) cl a eq_refl), (hasm_rest (cs_ini J) cl b eq_refl). cbn [cs_fin cs_ini sci sR]. split.
-    + intros [s [Hs [N [Ms [C E]]]]].
-      assert (Es : s = b).
-      { apply (key_inj cl R (Inj R)); try assumption. rewrite Kb. unfold JumpEval.gidx.
-        rewrite Ms, C, (vec_step _ _ R _ E), (T1 _ _ (jdR J) Ta). reflexivity. }
-      rewrite Es in E, N. exists a. split; [exact Ha|]. split; [exact Nab|]. split; [exact Ma|]. split; [exact Ca|].
-      apply vec_flip. exact E.
-    + intros [s [Hs [N [Ms [C E]]]]].
-      assert (Es : s = a).
-      { apply (key_inj cl R (Inj R)); try assumption. rewrite Ka. unfold JumpEval.gidx.
-        rewrite Ms, C, (vec_step _ _ R _ E), (T1 _ _ (vneg (jdR J)) Tb), vadd_cancel. reflexivity. }
-      rewrite Es in E, N. exists b. split; [exact Hb|]. split; [intro X; apply Nab; symmetry; exact X|]. split; [exact Mb|]. split; [exact Cb|].
-      apply vec_flip'. exact E.
+  - intros a Ha Ma Ka E. apply (exX1i J Ri Wi cl Wf R a Ha Ma Ka E).
+  - intros b Hb Mb Kb E. apply (exX1j J Ri Wj cl Wf R b Hb Mb Kb E).
+  - intros a b Ha Hb Ma Mb Ka Kb. apply (exX2 J Ri Nij Wi Wj cl Wf Inj R a b Ha Hb Ma Mb Ka Kb).
 Qed.
 
 End Cluster.
@@ -645,4 +696,491 @@ Qed.
 
 End Main.
 
+
+(* =============================================================================== with a vacancy == *)
+(* occupation seen by the jump interactions of the vacancy sampler: indices go through `mapping`, and the
+   vacancy index counts as occupied *)
+Definition Tocc (m : nat -> bool) (vac : nat) (mapping : nat -> nat) (y : nat) : bool :=
+  Nat.eqb (mapping y) vac || m (mapping y).
+
+Lemma actV_act m vac mapping sites R :
+  actV tidx Nmob Nspec socc m vac mapping sites R = act (Tocc m vac mapping) sites R.
+Proof. unfold actV, JumpEval.act, JumpEval.isocc, Tocc. apply forallb_ext_in'. intros s _. reflexivity. Qed.
+
+Section InstanceV.
+Variables Ti Tj mi mj : nat -> bool.
+Variables i j : nat.
+Hypothesis Nij : i <> j.
+Hypothesis Ti_i : Ti i = true.
+Hypothesis Tj_j : Tj j = true.
+Hypothesis Tij : Ti j = Tj i.
+Hypothesis mi_i : mi i = false.
+Hypothesis mj_j : mj j = false.
+Hypothesis mi_j : mi j = Ti j.
+Hypothesis mj_i : mj i = Tj i.
+Hypothesis Oth : forall y, y <> i -> y <> j -> Ti y = mi y /\ Tj y = mi y /\ mj y = mi y.
+
+Variable cl : list csite.
+Variable R : V.
+Variable hv : K.
+Variables ex_i ex_j : csite -> bool.
+Notation key := (gidx R).
+Hypothesis ND : NoDup (map key (filter smob cl)).
+Hypothesis X1i : forall a, In a cl -> smob a = true -> key a = i -> ex_i a = true ->
+                 exists b, In b cl /\ smob b = true /\ key b = j.
+Hypothesis X1j : forall b, In b cl -> smob b = true -> key b = j -> ex_j b = true ->
+                 exists a, In a cl /\ smob a = true /\ key a = i.
+Hypothesis X2 : forall a b, In a cl -> In b cl -> smob a = true -> smob b = true -> key a = i -> key b = j ->
+                ex_i a = ex_j b.
+
+Definition SV (ex : csite -> bool) (x : nat) (T : nat -> bool) (v : K) : K :=
+  sumf (fun cs => if pk R x cs then (if ex cs then 0 else bval (act T cl R) v) else 0) cl.
+
+Lemma SV_find ex x T v :
+  SV ex x T v = match find (pk R x) cl with
+                | Some cs => if ex cs then 0 else bval (act T cl R) v
+                | None => 0 end.
+Proof. unfold SV. apply sumf_find. apply (pk_unique cl R ND). Qed.
+
+Theorem instance_balance_V :
+  (SV ex_j j Ti (- hv) + SV ex_i i Tj hv) - (SV ex_i i Tj (- hv) + SV ex_j j Ti hv)
+  = bval (act mj cl R) (hv + hv) - bval (act mi cl R) (hv + hv).
+Proof.
+  rewrite !SV_find.
+  destruct (find (pk R i) cl) as [a|] eqn:Fi; destruct (find (pk R j) cl) as [b|] eqn:Fj.
+  - apply find_some in Fi. destruct Fi as [Ha Pa]. apply find_some in Fj. destruct Fj as [Hb Pb].
+    unfold pk in Pa, Pb. apply andb_true_iff in Pa. destruct Pa as [Ma Ka]. apply Nat.eqb_eq in Ka.
+    apply andb_true_iff in Pb. destruct Pb as [Mb Kb]. apply Nat.eqb_eq in Kb.
+    assert (Nab : a <> b) by (intro E; apply Nij; rewrite <- Ka, <- Kb, E; reflexivity).
+    rewrite (X2 a b Ha Hb Ma Mb Ka Kb).
+    assert (A0 : act mi cl R = false).
+    { rewrite (act_split mi cl a R Ha). unfold JumpEval.isocc. rewrite Ma, Ka, mi_i. reflexivity. }
+    assert (A1 : act mj cl R = false).
+    { rewrite (act_split mj cl b R Hb). unfold JumpEval.isocc. rewrite Mb, Kb, mj_j. reflexivity. }
+    rewrite A0, A1. cbn [JumpEval.bval]. destruct (ex_j b); [ring|].
+    assert (Hba : In b (others cl a)).
+    { unfold others. apply filter_In. split; [exact Hb|]. destruct (cs_eqb_spec b a) as [E|]; [exfalso; apply Nab; symmetry; exact E | reflexivity]. }
+    assert (E : act Ti cl R = act Tj cl R).
+    { rewrite (act_split Ti cl a R Ha), (act_split Ti _ b R Hba).
+      rewrite (act_split Tj cl a R Ha), (act_split Tj _ b R Hba).
+      unfold JumpEval.isocc. rewrite Ma, Mb, Ka, Kb, Ti_i, Tj_j, Tij. cbn [andb]. f_equal.
+      apply act_agree. intros s Hs Ms.
+      assert (Hs1 : In s (others cl a)) by (unfold others in *; apply filter_In in Hs; tauto).
+      assert (Hs2 : In s (others cl b)).
+      { unfold others in *. apply filter_In in Hs. destruct Hs as [Hs N]. apply filter_In in Hs. destruct Hs as [Hs _].
+        apply filter_In. split; assumption. }
+      destruct (Oth (key s)) as [O1 [O2 _]].
+      - rewrite <- Ka. apply (others_key cl R ND a s Ha Ma Hs1 Ms).
+      - rewrite <- Kb. apply (others_key cl R ND b s Hb Mb Hs2 Ms).
+      - rewrite O1, O2. reflexivity. }
+    rewrite E. destruct (act Tj cl R); cbn [JumpEval.bval]; ring.
+  - (* only the vacancy site i *)
+    apply find_some in Fi. destruct Fi as [Ha Pa]. unfold pk in Pa. apply andb_true_iff in Pa.
+    destruct Pa as [Ma Ka]. apply Nat.eqb_eq in Ka.
+    assert (NJ : forall s, In s cl -> smob s = true -> key s <> j).
+    { intros s Hs Ms E. pose proof (find_none _ _ Fj s Hs) as P. unfold pk in P. rewrite Ms, E, Nat.eqb_refl in P. discriminate. }
+    assert (Ex : ex_i a = false).
+    { destruct (ex_i a) eqn:E; [|reflexivity]. destruct (X1i a Ha Ma Ka E) as [b [Hb [Mb Kb]]]. exfalso. exact (NJ b Hb Mb Kb). }
+    rewrite Ex.
+    assert (A0 : act mi cl R = false).
+    { rewrite (act_split mi cl a R Ha). unfold JumpEval.isocc. rewrite Ma, Ka, mi_i. reflexivity. }
+    assert (E : act Tj cl R = act mj cl R).
+    { apply act_agree. intros s Hs Ms. destruct (Nat.eq_dec (key s) i) as [Ei|Ni].
+      - rewrite Ei. symmetry. exact mj_i.
+      - destruct (Oth (key s) Ni (NJ s Hs Ms)) as [_ [O2 O3]]. rewrite O2, O3. reflexivity. }
+    rewrite A0, E. destruct (act mj cl R); cbn [JumpEval.bval]; ring.
+  - (* only the final site j *)
+    apply find_some in Fj. destruct Fj as [Hb Pb]. unfold pk in Pb. apply andb_true_iff in Pb.
+    destruct Pb as [Mb Kb]. apply Nat.eqb_eq in Kb.
+    assert (NI : forall s, In s cl -> smob s = true -> key s <> i).
+    { intros s Hs Ms E. pose proof (find_none _ _ Fi s Hs) as P. unfold pk in P. rewrite Ms, E, Nat.eqb_refl in P. discriminate. }
+    assert (Ex : ex_j b = false).
+    { destruct (ex_j b) eqn:E; [|reflexivity]. destruct (X1j b Hb Mb Kb E) as [a [Ha [Ma Ka]]]. exfalso. exact (NI a Ha Ma Ka). }
+    rewrite Ex.
+    assert (A1 : act mj cl R = false).
+    { rewrite (act_split mj cl b R Hb). unfold JumpEval.isocc. rewrite Mb, Kb, mj_j. reflexivity. }
+    assert (E : act Ti cl R = act mi cl R).
+    { apply act_agree. intros s Hs Ms. destruct (Nat.eq_dec (key s) j) as [Ej|Nj].
+      - rewrite Ej. symmetry. exact mi_j.
+      - destruct (Oth (key s) (NI s Hs Ms) Nj) as [O1 _]. exact O1. }
+    rewrite A1, E. destruct (act mi cl R); cbn [JumpEval.bval]; ring.
+  - assert (E : act mj cl R = act mi cl R).
+    { apply act_agree. intros s Hs Ms. destruct (Oth (key s)) as [_ [_ O3]]; [| |exact O3].
+      - intro E. pose proof (find_none _ _ Fi s Hs) as P. unfold pk in P. rewrite Ms, E, Nat.eqb_refl in P. discriminate.
+      - intro E. pose proof (find_none _ _ Fj s Hs) as P. unfold pk in P. rewrite Ms, E, Nat.eqb_refl in P. discriminate. }
+    rewrite E. ring.
+Qed.
+
+End InstanceV.
+
+
+(* ------------------------------------------------------------------------------- assembling, vacancy -- *)
+Lemma SV_ext cl R ex x T T' v : (forall y, T y = T' y) -> SV cl R ex x T v = SV cl R ex x T' v.
+Proof.
+  intro H. unfold SV. apply sumf_ext. intros cs _. destruct (pk R x cs); [|reflexivity].
+  destruct (ex cs); [reflexivity|]. rewrite (act_agree T T' cl R); [reflexivity|]. intros; apply H.
+Qed.
+
+Lemma act_ext T T' l R : (forall y, T y = T' y) -> act T l R = act T' l R.
+Proof. intro H. apply act_agree. intros; apply H. Qed.
+
+Lemma sideV_as_instances m vac mapping c other Rs sgn cl hv :
+  (c < Nmob)%nat -> (forall s, In s cl -> smob s = true -> (sci s < Nmob)%nat) ->
+  sideV K tidx Nmob Nspec socc m vac mapping c other Rs sgn (cl, hv) =
+  sumf (fun R => SV cl R (fun cs => hasm other (mkCS true (sci cs) v0 :: rest cl cs)) (tidx Rs * Nmob + c)
+                    (Tocc m vac mapping) (sgn hv)) Rvec.
+Proof.
+  intros Hc Wf. unfold sideV. cbn [fst snd].
+  set (T := Tocc m vac mapping).
+  set (F := fun (cs : csite) (R : V) => if hasm other (mkCS true (sci cs) v0 :: rest cl cs) then 0
+                                        else bval (T (tidx Rs * Nmob + c)%nat && act T (others cl cs) R) (sgn hv)).
+  transitivity (sumf (fun cs => F cs (rep (vadd Rs (vneg (sR cs))))) (centered c cl)).
+  - apply sumf_ext. intros cs Hcs. unfold centered in Hcs. apply filter_In in Hcs. destruct Hcs as [_ P].
+    apply andb_true_iff in P. destruct P as [M C]. apply Nat.eqb_eq in C. unfold F. rewrite M.
+    destruct (hasm other (mkCS true (sci cs) v0 :: rest cl cs)); [reflexivity|].
+    rewrite actV_act. fold T. unfold JumpEval.act at 1. cbn [forallb]. fold (act T (rest cl cs) Rs).
+    unfold JumpEval.isocc at 1. cbn [smob]. rewrite gidx_origin, C, act_rest. reflexivity.
+  - rewrite (centered_sum cl c Rs F Hc Wf). apply sumf_ext. intros R _. unfold SV. apply sumf_ext. intros cs Hcs.
+    unfold pk. destruct (smob cs) eqn:M; cbn [andb]; [|reflexivity].
+    destruct (Nat.eqb_spec (gidx R cs) (tidx Rs * Nmob + c)%nat) as [E|]; [|reflexivity].
+    unfold F. destruct (hasm other (mkCS true (sci cs) v0 :: rest cl cs)); [reflexivity|].
+    rewrite (act_split T cl cs R Hcs). unfold JumpEval.isocc at 1. rewrite M, E. reflexivity.
+Qed.
+
+Section MainV.
+Variable mocc : nat -> bool.
+Variable J : jspec K.
+Variable Rv : V.
+Notation Rj := (vadd Rv (jdR J)).
+Notation i := (tidx Rv * Nmob + jci J)%nat.
+Notation j := (tidx Rj * Nmob + jcj J)%nat.
+Hypothesis Nij : i <> j.
+Hypothesis Wi : (jci J < Nmob)%nat.
+Hypothesis Wj : (jcj J < Nmob)%nat.
+Notation mocc2 := (swap_occ mocc i j).
+
+Definition idm (x : nat) : nat := x.
+Definition revm (a b x : nat) : nat := if Nat.eqb x a then b else if Nat.eqb x b then a else x.
+Notation Ti := (Tocc mocc i idm).
+Notation Tj := (Tocc mocc2 j idm).
+Definition mI (x : nat) : bool := if Nat.eqb x i then false else mocc x.
+Definition mJ (x : nat) : bool := if Nat.eqb x j then false else mocc2 x.
+
+Lemma nji : Nat.eqb j i = false. Proof. apply Nat.eqb_neq. intro E. apply Nij. symmetry. exact E. Qed.
+Lemma nij : Nat.eqb i j = false. Proof. apply Nat.eqb_neq. exact Nij. Qed.
+
+Lemma mocc2_i : mocc2 i = mocc j. Proof. unfold swap_occ. rewrite Nat.eqb_refl. reflexivity. Qed.
+Lemma mocc2_other y : y <> i -> y <> j -> mocc2 y = mocc y.
+Proof. intros A B. unfold swap_occ. destruct (Nat.eqb_spec y i); [contradiction|]. destruct (Nat.eqb_spec y j); [contradiction | reflexivity]. Qed.
+
+Lemma Ti_spec y : Ti y = if Nat.eqb y i then true else mocc y.
+Proof. unfold Tocc, idm. destruct (Nat.eqb y i); reflexivity. Qed.
+Lemma Tj_spec y : Tj y = if Nat.eqb y j then true else if Nat.eqb y i then mocc j else mocc y.
+Proof.
+  unfold Tocc, idm. destruct (Nat.eqb_spec y j) as [->|N]; [reflexivity|]. cbn [orb].
+  destruct (Nat.eqb_spec y i) as [->|N2]; [apply mocc2_i | apply mocc2_other; assumption].
+Qed.
+(* the exchanged view of sampler i is the plain view of sampler j, and vice versa *)
+Lemma Trev_i y : Tocc mocc i (revm i j) y = Tj y.
+Proof.
+  rewrite Tj_spec. unfold Tocc, revm. destruct (Nat.eqb_spec y i) as [->|N].
+  - rewrite nij, nji. reflexivity.
+  - destruct (Nat.eqb_spec y j) as [->|N2]; [rewrite Nat.eqb_refl; reflexivity|].
+    destruct (Nat.eqb_spec y i); [contradiction | reflexivity].
+Qed.
+Lemma Trev_j y : Tocc mocc2 j (revm j i) y = Ti y.
+Proof.
+  rewrite Ti_spec. unfold Tocc, revm. destruct (Nat.eqb_spec y j) as [->|N].
+  - rewrite nji, nij. cbn [orb]. apply mocc2_i.
+  - destruct (Nat.eqb_spec y i) as [->|N2]; [rewrite Nat.eqb_refl; reflexivity|].
+    destruct (Nat.eqb_spec y j); [contradiction|]. cbn [orb]. apply mocc2_other; assumption.
+Qed.
+
+Variable cl : list csite.
+Variable hv : K.
+Hypothesis Wf : forall s, In s cl -> smob s = true -> (sci s < Nmob)%nat.
+Hypothesis Inj : forall R, NoDup (map (gidx R) (filter smob cl)).
+
+(* the origin copy of the centre site is never the excluded end point (the two end points differ) *)
+Lemma hasm_cons_ini cs l : sci cs = jcj J -> hasm (cs_ini J) (mkCS true (sci cs) v0 :: l) = hasm (cs_ini J) l.
+Proof.
+  intro C. unfold hasm. cbn [existsb smob andb]. destruct (cs_eqb_spec (cs_ini J) (mkCS true (sci cs) v0)) as [E|]; [|reflexivity].
+  exfalso. apply Nij. unfold cs_ini in E. injection E as E1 E2. rewrite C in E1.
+  assert (jdR J = v0) by (rewrite <- (vneg_neg (jdR J)), E2; reflexivity).
+  rewrite H, vadd_0_r, E1. reflexivity.
+Qed.
+Lemma hasm_cons_fin cs l : sci cs = jci J -> hasm (cs_fin J) (mkCS true (sci cs) v0 :: l) = hasm (cs_fin J) l.
+Proof.
+  intro C. unfold hasm. cbn [existsb smob andb]. destruct (cs_eqb_spec (cs_fin J) (mkCS true (sci cs) v0)) as [E|]; [|reflexivity].
+  exfalso. apply Nij. unfold cs_fin in E. injection E as E1 E2. rewrite C in E1.
+  rewrite E2, vadd_0_r, E1. reflexivity.
+Qed.
+
+Lemma cluster_balance_V :
+  (sideV K tidx Nmob Nspec socc mocc i idm (jcj J) (cs_ini J) Rj (ropp K) (cl, hv)
+   + sideV K tidx Nmob Nspec socc mocc i (revm i j) (jci J) (cs_fin J) Rv (fun x => x) (cl, hv))
+  - (sideV K tidx Nmob Nspec socc mocc2 j idm (jci J) (cs_fin J) Rv (ropp K) (cl, hv)
+     + sideV K tidx Nmob Nspec socc mocc2 j (revm j i) (jcj J) (cs_ini J) Rj (fun x => x) (cl, hv))
+  = Ecl K tidx Rvec Nmob Nspec socc mJ (cl, hv) - Ecl K tidx Rvec Nmob Nspec socc mI (cl, hv).
+Proof.
+  rewrite !sideV_as_instances by assumption. unfold Ecl. cbn [fst snd].
+  rewrite <- !sumf_add, <- !sumf_sub. apply sumf_ext. intros R _.
+  rewrite (SV_ext cl R _ _ (Tocc mocc i (revm i j)) Tj) by apply Trev_i.
+  rewrite (SV_ext cl R _ _ (Tocc mocc2 j (revm j i)) Ti) by apply Trev_j.
+  apply (instance_balance_V Ti Tj mI mJ i j Nij).
+  - rewrite Ti_spec, Nat.eqb_refl. reflexivity.
+  - rewrite Tj_spec, Nat.eqb_refl. reflexivity.
+  - rewrite Ti_spec, Tj_spec, nji, nij, Nat.eqb_refl. reflexivity.
+  - unfold mI. rewrite Nat.eqb_refl. reflexivity.
+  - unfold mJ. rewrite Nat.eqb_refl. reflexivity.
+  - unfold mI. rewrite nji, Ti_spec, nji. reflexivity.
+  - unfold mJ. rewrite nij, Tj_spec, nij, Nat.eqb_refl. apply mocc2_i.
+  - intros y A B. rewrite Ti_spec, Tj_spec. unfold mI, mJ.
+    destruct (Nat.eqb_spec y i); [contradiction|]. destruct (Nat.eqb_spec y j); [contradiction|].
+    repeat split; try reflexivity. apply mocc2_other; assumption.
+  - apply Inj.
+  - intros a Ha Ma Ka E. destruct (key_i J Rv Wi cl Wf R a Ha Ma Ka) as [_ Ca].
+    rewrite (hasm_cons_fin a _ Ca) in E. apply (exX1i J Rv Wi cl Wf R a Ha Ma Ka E).
+  - intros b Hb Mb Kb E. destruct (key_j J Rv Wj cl Wf R b Hb Mb Kb) as [_ Cb].
+    rewrite (hasm_cons_ini b _ Cb) in E. apply (exX1j J Rv Wj cl Wf R b Hb Mb Kb E).
+  - intros a b Ha Hb Ma Mb Ka Kb.
+    destruct (key_i J Rv Wi cl Wf R a Ha Ma Ka) as [_ Ca]. destruct (key_j J Rv Wj cl Wf R b Hb Mb Kb) as [_ Cb].
+    rewrite (hasm_cons_fin a _ Ca), (hasm_cons_ini b _ Cb).
+    apply (exX2 J Rv Nij Wi Wj cl Wf Inj R a b Ha Hb Ma Mb Ka Kb).
+Qed.
+
+End MainV.
+
+
+Section FinalV.
+Variable mocc : nat -> bool.
+Variable J : jspec K.
+Variable Rv : V.
+Notation Rj := (vadd Rv (jdR J)).
+Notation i := (tidx Rv * Nmob + jci J)%nat.
+Notation j := (tidx Rj * Nmob + jcj J)%nat.
+Hypothesis Nij : i <> j.
+Hypothesis Wi : (jci J < Nmob)%nat.
+Hypothesis Wj : (jcj J < Nmob)%nat.
+Notation mocc2 := (swap_occ mocc i j).
+
+Variable CE : list (list csite * K).
+Variable VCE : list (vclust K).
+Variable TSL : list (tsclust K).
+Variable c0 : K.
+Hypothesis WfC : forall cl hv s, In (cl, hv) CE -> In s cl -> smob s = true -> (sci s < Nmob)%nat.
+Hypothesis InjC : forall cl hv R, In (cl, hv) CE -> NoDup (map (gidx R) (filter smob cl)).
+(* a vacancy cluster does not wrap onto its own vacancy site *)
+Hypothesis InjV : forall vc R s, In vc VCE -> In s (voth vc) -> smob s = true ->
+                  gidx R s <> gidx R (mkCS true (vci vc) v0).
+
+Definition tsV (m : nat -> bool) (vac : nat) (JJ : jspec K) (R : V) (ts : tsclust K) : K :=
+  if ts_match K (ts0 ts) (ts1 ts) JJ
+  then bval (actV tidx Nmob Nspec socc m vac (fun x => x) (map (shift (vneg (sR (ts0 ts)))) (tsoth ts)) R) (tsw ts) else 0.
+
+(* the transition-state expansion gives the reverse jump (vacancy at the final site) the same value *)
+Hypothesis TSsym : sumf (tsV mocc i J Rv) TSL = sumf (tsV mocc2 j (jrev J) Rj) TSL.
+
+Theorem detailed_balance_V :
+  QjumpV K tidx Nmob Nspec socc mocc CE VCE TSL J Rv - QjumpV K tidx Nmob Nspec socc mocc2 CE VCE TSL (jrev J) Rj
+  = EnergyV K tidx Rvec Nmob Nspec socc mocc2 c0 CE VCE Rj (jcj J) - EnergyV K tidx Rvec Nmob Nspec socc mocc c0 CE VCE Rv (jci J).
+Proof.
+  unfold QjumpV, EnergyV, vac_index. cbv zeta. rewrite !gidx_origin. cbn [jrev jci jcj jdR jkra]. rewrite vadd_cancel.
+  change (sumf (fun ts : tsclust K => if ts_match K (ts0 ts) (ts1 ts) J
+            then bval (actV tidx Nmob Nspec socc mocc i (fun x : nat => x) (map (shift (vneg (sR (ts0 ts)))) (tsoth ts)) Rv) (tsw ts)
+            else 0) TSL) with (sumf (tsV mocc i J Rv) TSL).
+  change (sumf (fun ts : tsclust K => if ts_match K (ts0 ts) (ts1 ts) (jrev J)
+            then bval (actV tidx Nmob Nspec socc mocc2 j (fun x : nat => x) (map (shift (vneg (sR (ts0 ts)))) (tsoth ts)) Rj) (tsw ts)
+            else 0) TSL) with (sumf (tsV mocc2 j (jrev J) Rj) TSL).
+  rewrite TSsym.
+  replace (cs_ini (jrev J)) with (cs_fin J) by (unfold cs_ini, cs_fin, jrev; cbn [jci jcj jdR]; rewrite vneg_neg; reflexivity).
+  change (cs_fin (jrev J)) with (cs_ini J).
+  change (fun x : nat => if Nat.eqb x i then j else if Nat.eqb x j then i else x) with (revm i j).
+  change (fun x : nat => if Nat.eqb x j then i else if Nat.eqb x i then j else x) with (revm j i).
+  change (fun x : nat => x) with idm.
+  change (fun x : nat => if Nat.eqb x j then false else mocc2 x) with (mJ mocc J Rv).
+  change (fun x : nat => if Nat.eqb x i then false else mocc x) with (mI mocc J Rv).
+  (* normal clusters *)
+  assert (S : (sumf (sideV K tidx Nmob Nspec socc mocc i idm (jcj J) (cs_ini J) Rj (ropp K)) CE
+               + sumf (sideV K tidx Nmob Nspec socc mocc i (revm i j) (jci J) (cs_fin J) Rv (fun x => x)) CE)
+              - (sumf (sideV K tidx Nmob Nspec socc mocc2 j idm (jci J) (cs_fin J) Rv (ropp K)) CE
+                 + sumf (sideV K tidx Nmob Nspec socc mocc2 j (revm j i) (jcj J) (cs_ini J) Rj (fun x => x)) CE)
+              = sumf (Ecl K tidx Rvec Nmob Nspec socc (mJ mocc J Rv)) CE - sumf (Ecl K tidx Rvec Nmob Nspec socc (mI mocc J Rv)) CE).
+  { rewrite <- !sumf_add, <- !sumf_sub. apply sumf_ext. intros [cl hv] Hc.
+    apply (cluster_balance_V mocc J Rv Nij Wi Wj cl hv).
+    - intros s Hs Ms. apply (WfC cl hv s Hc Hs Ms).
+    - intro R. apply (InjC cl hv R Hc). }
+  (* vacancy clusters *)
+  assert (Ai : forall vc, In vc VCE -> vci vc = jci J ->
+               actV tidx Nmob Nspec socc mocc i idm (voth vc) Rv = act (mI mocc J Rv) (voth vc) Rv /\
+               actV tidx Nmob Nspec socc mocc2 j (revm j i) (voth vc) Rv = act (mI mocc J Rv) (voth vc) Rv).
+  { intros vc Hvc C. rewrite !actV_act.
+    assert (G : forall T, (forall y, y <> i -> T y = mI mocc J Rv y) -> act T (voth vc) Rv = act (mI mocc J Rv) (voth vc) Rv).
+    { intros T HT. apply act_agree. intros s Hs Ms. apply HT. intro E. apply (InjV vc Rv s Hvc Hs Ms).
+      rewrite gidx_origin, C. exact E. }
+    split; apply G; intros y Ny.
+    - rewrite Ti_spec. unfold mI. destruct (Nat.eqb_spec y i); [contradiction | reflexivity].
+    - rewrite (Trev_j mocc J Rv Nij), Ti_spec. unfold mI. destruct (Nat.eqb_spec y i); [contradiction | reflexivity]. }
+  assert (Aj : forall vc, In vc VCE -> vci vc = jcj J ->
+               actV tidx Nmob Nspec socc mocc i (revm i j) (voth vc) Rj = act (mJ mocc J Rv) (voth vc) Rj /\
+               actV tidx Nmob Nspec socc mocc2 j idm (voth vc) Rj = act (mJ mocc J Rv) (voth vc) Rj).
+  { intros vc Hvc C. rewrite !actV_act.
+    assert (G : forall T, (forall y, y <> j -> T y = mJ mocc J Rv y) -> act T (voth vc) Rj = act (mJ mocc J Rv) (voth vc) Rj).
+    { intros T HT. apply act_agree. intros s Hs Ms. apply HT. intro E. apply (InjV vc Rj s Hvc Hs Ms).
+      rewrite gidx_origin, C. exact E. }
+    assert (TM : forall y, y <> j -> Tocc mocc2 j idm y = mJ mocc J Rv y).
+    { intros y Ny. rewrite (Tj_spec mocc J Rv). unfold mJ. destruct (Nat.eqb_spec y j); [contradiction|].
+      destruct (Nat.eqb_spec y i) as [->|N2]; [symmetry; apply mocc2_i | symmetry; apply mocc2_other; assumption]. }
+    split; apply G; intros y Ny.
+    - rewrite (Trev_i mocc J Rv Nij). apply TM. exact Ny.
+    - apply TM. exact Ny. }
+  assert (W : (sumf (fun vc : vclust K => if Nat.eqb (vci vc) (jci J)
+                       then bval (actV tidx Nmob Nspec socc mocc i idm (voth vc) Rv) (- vhv vc) else 0) VCE
+               + sumf (fun vc : vclust K => if Nat.eqb (vci vc) (jcj J)
+                       then bval (actV tidx Nmob Nspec socc mocc i (revm i j) (voth vc) Rj) (vhv vc) else 0) VCE)
+              - (sumf (fun vc : vclust K => if Nat.eqb (vci vc) (jcj J)
+                       then bval (actV tidx Nmob Nspec socc mocc2 j idm (voth vc) Rj) (- vhv vc) else 0) VCE
+                 + sumf (fun vc : vclust K => if Nat.eqb (vci vc) (jci J)
+                       then bval (actV tidx Nmob Nspec socc mocc2 j (revm j i) (voth vc) Rv) (vhv vc) else 0) VCE)
+              = sumf (fun vc : vclust K => if Nat.eqb (vci vc) (jcj J)
+                       then bval (act (mJ mocc J Rv) (voth vc) Rj) (vhv vc + vhv vc) else 0) VCE
+                - sumf (fun vc : vclust K => if Nat.eqb (vci vc) (jci J)
+                       then bval (act (mI mocc J Rv) (voth vc) Rv) (vhv vc + vhv vc) else 0) VCE).
+  { rewrite <- !sumf_add, <- !sumf_sub. apply sumf_ext. intros vc Hvc.
+    destruct (Nat.eqb_spec (vci vc) (jci J)) as [Ci|Ci]; destruct (Nat.eqb_spec (vci vc) (jcj J)) as [Cj|Cj].
+    - destruct (Ai vc Hvc Ci) as [-> ->]. destruct (Aj vc Hvc Cj) as [-> ->].
+      destruct (act (mI mocc J Rv) (voth vc) Rv), (act (mJ mocc J Rv) (voth vc) Rj); cbn [JumpEval.bval]; ring.
+    - destruct (Ai vc Hvc Ci) as [-> ->].
+      destruct (act (mI mocc J Rv) (voth vc) Rv); cbn [JumpEval.bval]; ring.
+    - destruct (Aj vc Hvc Cj) as [-> ->].
+      destruct (act (mJ mocc J Rv) (voth vc) Rj); cbn [JumpEval.bval]; ring.
+    - ring. }
+  set (V1 := sumf (fun vc : vclust K => if Nat.eqb (vci vc) (jci J)
+                       then bval (actV tidx Nmob Nspec socc mocc i idm (voth vc) Rv) (- vhv vc) else 0) VCE) in *.
+  set (V2 := sumf (fun vc : vclust K => if Nat.eqb (vci vc) (jcj J)
+                       then bval (actV tidx Nmob Nspec socc mocc i (revm i j) (voth vc) Rj) (vhv vc) else 0) VCE) in *.
+  set (V3 := sumf (fun vc : vclust K => if Nat.eqb (vci vc) (jcj J)
+                       then bval (actV tidx Nmob Nspec socc mocc2 j idm (voth vc) Rj) (- vhv vc) else 0) VCE) in *.
+  set (V4 := sumf (fun vc : vclust K => if Nat.eqb (vci vc) (jci J)
+                       then bval (actV tidx Nmob Nspec socc mocc2 j (revm j i) (voth vc) Rv) (vhv vc) else 0) VCE) in *.
+  set (S1 := sumf (sideV K tidx Nmob Nspec socc mocc i idm (jcj J) (cs_ini J) Rj (ropp K)) CE) in *.
+  set (S2 := sumf (sideV K tidx Nmob Nspec socc mocc i (revm i j) (jci J) (cs_fin J) Rv (fun x => x)) CE) in *.
+  set (S3 := sumf (sideV K tidx Nmob Nspec socc mocc2 j idm (jci J) (cs_fin J) Rv (ropp K)) CE) in *.
+  set (S4 := sumf (sideV K tidx Nmob Nspec socc mocc2 j (revm j i) (jcj J) (cs_ini J) Rj (fun x => x)) CE) in *.
+  set (TT := sumf (tsV mocc2 j (jrev J) Rj) TSL).
+  transitivity (((S1 + S2) - (S3 + S4)) + ((V1 + V2) - (V3 + V4))); [ring|]. rewrite S, W. ring.
+Qed.
+
+End FinalV.
+
 End DB.
+
+(* ------------------------------------------------------------------------------- non-vacuity -- *)
+(* a chain of four cells: translation class = x mod 4 *)
+Definition tidx4 (R : V) : nat := let '(x, _, _) := R in Z.to_nat (x mod 4).
+Definition Rvec4 : list V := [(0, 0, 0); (1, 0, 0); (2, 0, 0); (3, 0, 0)].
+
+Lemma T1_4 R1 R2 T : tidx4 R1 = tidx4 R2 -> tidx4 (vadd R1 T) = tidx4 (vadd R2 T).
+Proof.
+  destruct R1 as [[x1 y1] z1], R2 as [[x2 y2] z2], T as [[t ?] ?]. unfold tidx4, vadd. intro H.
+  assert (E : x1 mod 4 = x2 mod 4).
+  { pose proof (Z.mod_pos_bound x1 4 ltac:(lia)). pose proof (Z.mod_pos_bound x2 4 ltac:(lia)). lia. }
+  rewrite <- (Z.add_mod_idemp_l x1), <- (Z.add_mod_idemp_l x2) by lia. rewrite E. reflexivity.
+Qed.
+Lemma T2_4 k : (k < length Rvec4)%nat -> tidx4 (nth k Rvec4 v0) = k.
+Proof. cbn [length Rvec4]. intro H. destruct k as [|[|[|[|k]]]]; try reflexivity. lia. Qed.
+Lemma T3_4 R : (tidx4 R < length Rvec4)%nat.
+Proof. destruct R as [[x y] z]. unfold tidx4. cbn [length Rvec4]. pose proof (Z.mod_pos_bound x 4 ltac:(lia)). lia. Qed.
+
+Definition sA := mkCS true O (0, 0, 0).
+Definition sB := mkCS true O (1, 0, 0).
+Definition sC := mkCS true O (2, 0, 0).
+Definition CE4 : list (list csite * Z) := [([sA], 2); ([sA; sB], 5)].
+Definition TS4 : list (tsclust Zring) := [mkTS (K:=Zring) sA sB [sC] 3; mkTS (K:=Zring) sA sC [sB] 4].
+Definition J4 : jspec Zring := mkJS (K:=Zring) O O (1, 0, 0) 7.
+Definition occ4 (x : nat) : bool := Nat.eqb x 0 || Nat.eqb x 2.     (* sites 0 and 2 occupied, 1 and 3 empty *)
+
+Example detailed_balance_example :
+  Qjump Zring tidx4 1 0 (fun _ => true) occ4 CE4 TS4 J4 (0, 0, 0)
+  - Qjump Zring tidx4 1 0 (fun _ => true) (swap_occ occ4 0 1) CE4 TS4 (jrev J4) (1, 0, 0)
+  = Energy Zring tidx4 Rvec4 1 0 (fun _ => true) (swap_occ occ4 0 1) 0 CE4
+    - Energy Zring tidx4 Rvec4 1 0 (fun _ => true) occ4 0 CE4
+  /\ Energy Zring tidx4 Rvec4 1 0 (fun _ => true) (swap_occ occ4 0 1) 0 CE4
+     - Energy Zring tidx4 Rvec4 1 0 (fun _ => true) occ4 0 CE4 = 10.
+Proof.
+  split; [|reflexivity].
+  apply (detailed_balance Zring tidx4 Rvec4 1 0 (fun _ => true) T1_4 T2_4 T3_4 occ4 J4 (0, 0, 0)); try reflexivity.
+  - cbn. lia.
+  - cbn. lia.
+  - intros cl hv s H Hs Ms. cbn [CE4 In] in H. destruct H as [H|[H|[]]]; inversion H; subst; cbn [In] in Hs;
+      repeat (destruct Hs as [<-|Hs]; [cbn; lia|]); destruct Hs.
+  - intros cl hv R H. apply (inj_from_reps tidx4 Rvec4 1 0 T1_4 T2_4 T3_4).
+    intros k Hk. cbn [CE4 In] in H. cbn [length Rvec4] in Hk.
+    destruct H as [H|[H|[]]]; inversion H; subst; destruct k as [|[|[|[|k]]]]; try lia; vm_compute; repeat constructor; cbn; intuition discriminate.
+  - intros ts H. cbn [TS4 In] in H. unfold ts_inj.
+    apply (forall_reps tidx4 Rvec4 T2_4 T3_4
+             (fun R => forall s, In s (tsoth ts) -> smob s = true ->
+                                 gidx tidx4 1 0 R s <> gidx tidx4 1 0 R (ts0 ts) /\ gidx tidx4 1 0 R s <> gidx tidx4 1 0 R (ts1 ts))).
+    + intros R R' E HR s Hs Ms. rewrite <- !(gidx_class tidx4 1 0 T1_4 R R' _ E). apply HR; assumption.
+    + intros k Hk s Hs Ms. cbn [length Rvec4] in Hk.
+      destruct H as [H|[H|[]]]; subst ts; cbn [tsoth In] in Hs; destruct Hs as [<-|[]];
+        destruct k as [|[|[|[|k]]]]; try lia; vm_compute; split; discriminate.
+Qed.
+
+(* the same ring with a vacancy at site 0 jumping to site 1 (occupied by an atom of species 1) *)
+Definition sL := mkCS true O (-1, 0, 0).
+Definition VC4 : list (vclust Zring) := [mkVC (K:=Zring) O [sB] 3; mkVC (K:=Zring) O [sL] 3; mkVC (K:=Zring) O [sB; sC] 1].
+Definition occV (x : nat) : bool := Nat.eqb x 1 || Nat.eqb x 2.
+
+Example detailed_balance_V_example :
+  QjumpV Zring tidx4 1 0 (fun _ => true) occV CE4 VC4 [] J4 (0, 0, 0)
+  - QjumpV Zring tidx4 1 0 (fun _ => true) (swap_occ occV 0 1) CE4 VC4 [] (jrev J4) (1, 0, 0)
+  = EnergyV Zring tidx4 Rvec4 1 0 (fun _ => true) (swap_occ occV 0 1) 0 CE4 VC4 (1, 0, 0) O
+    - EnergyV Zring tidx4 Rvec4 1 0 (fun _ => true) occV 0 CE4 VC4 (0, 0, 0) O
+  /\ EnergyV Zring tidx4 Rvec4 1 0 (fun _ => true) (swap_occ occV 0 1) 0 CE4 VC4 (1, 0, 0) O
+     - EnergyV Zring tidx4 Rvec4 1 0 (fun _ => true) occV 0 CE4 VC4 (0, 0, 0) O = -6.
+Proof.
+  split; [|reflexivity].
+  apply (detailed_balance_V Zring tidx4 Rvec4 1 0 (fun _ => true) T1_4 T2_4 T3_4 occV J4 (0, 0, 0)); try reflexivity.
+  - cbn. lia.
+  - cbn. lia.
+  - cbn. lia.
+  - intros cl hv s H Hs Ms. cbn [CE4 In] in H. destruct H as [H|[H|[]]]; inversion H; subst; cbn [In] in Hs;
+      repeat (destruct Hs as [<-|Hs]; [cbn; lia|]); destruct Hs.
+  - intros cl hv R H. apply (inj_from_reps tidx4 Rvec4 1 0 T1_4 T2_4 T3_4).
+    intros k Hk. cbn [CE4 In] in H. cbn [length Rvec4] in Hk.
+    destruct H as [H|[H|[]]]; inversion H; subst; destruct k as [|[|[|[|k]]]]; try lia; vm_compute; repeat constructor; cbn; intuition discriminate.
+  - intros vc R s H. revert s.
+    apply (forall_reps tidx4 Rvec4 T2_4 T3_4
+             (fun R => forall s, In s (voth vc) -> smob s = true -> gidx tidx4 1 0 R s <> gidx tidx4 1 0 R (mkCS true (vci vc) v0))).
+    + intros R1 R' E HR s Hs Ms. rewrite <- !(gidx_class tidx4 1 0 T1_4 R1 R' _ E). apply HR; assumption.
+    + intros k Hk s Hs Ms. cbn [length Rvec4] in Hk. cbn [VC4 In] in H.
+      destruct H as [H|[H|[H|[]]]]; subst vc; cbn [voth In] in Hs;
+        repeat (destruct Hs as [<-|Hs]; [destruct k as [|[|[|[|k]]]]; try lia; vm_compute; discriminate|]); destruct Hs.
+Qed.
+
+(* KRA values only (no transition-state clusters): no premise about the TS expansion is left *)
+Corollary detailed_balance_V_kra :
+  forall (K : ordring) (tidx : V -> nat) (Rvec : list V) (Nmob Nspec : nat) (socc : nat -> bool),
+    (forall R1 R2 T : V, tidx R1 = tidx R2 -> tidx (vadd R1 T) = tidx (vadd R2 T)) ->
+    (forall k : nat, (k < length Rvec)%nat -> tidx (nth k Rvec v0) = k) ->
+    (forall R : V, (tidx R < length Rvec)%nat) ->
+    forall (mocc : nat -> bool) (J : jspec K) (Rv : V),
+    (tidx Rv * Nmob + jci J)%nat <> (tidx (vadd Rv (jdR J)) * Nmob + jcj J)%nat ->
+    (jci J < Nmob)%nat -> (jcj J < Nmob)%nat ->
+    forall (CE : list (list csite * K)) (VCE : list (vclust K)) (c0 : K),
+    (forall cl hv s, In (cl, hv) CE -> In s cl -> smob s = true -> (sci s < Nmob)%nat) ->
+    (forall cl hv R, In (cl, hv) CE -> NoDup (map (gidx tidx Nmob Nspec R) (filter smob cl))) ->
+    (forall vc R s, In vc VCE -> In s (voth vc) -> smob s = true ->
+                    gidx tidx Nmob Nspec R s <> gidx tidx Nmob Nspec R (mkCS true (vci vc) v0)) ->
+    rsub K (QjumpV K tidx Nmob Nspec socc mocc CE VCE [] J Rv)
+           (QjumpV K tidx Nmob Nspec socc
+              (swap_occ mocc (tidx Rv * Nmob + jci J) (tidx (vadd Rv (jdR J)) * Nmob + jcj J)) CE VCE []
+              (jrev J) (vadd Rv (jdR J)))
+    = rsub K (EnergyV K tidx Rvec Nmob Nspec socc
+                (swap_occ mocc (tidx Rv * Nmob + jci J) (tidx (vadd Rv (jdR J)) * Nmob + jcj J)) c0 CE VCE
+                (vadd Rv (jdR J)) (jcj J))
+             (EnergyV K tidx Rvec Nmob Nspec socc mocc c0 CE VCE Rv (jci J)).
+Proof.
+  intros. apply detailed_balance_V; try assumption. reflexivity.
+Qed.
